@@ -1,8 +1,9 @@
 import os
 
-from typing import Optional
+from typing import Any, Optional
 
 from antlr4 import CommonTokenStream, FileStream
+from antlr4.error.ErrorListener import ErrorListener
 from afmparser import AFMParser
 from afmparser.AFMLexer import AFMLexer
 
@@ -18,6 +19,17 @@ from flamapy.metamodels.fm_metamodel.models import (
     Relation,
     Attribute,
 )
+
+
+class AFMErrorListener(ErrorListener):
+    def __init__(self) -> None:
+        super().__init__()
+        self.errors: list[str] = []
+
+    def syntaxError(  # noqa: PLR0913
+        self, recognizer: Any, offendingSymbol: Any, line: Any, column: Any, msg: Any, e: Any
+    ) -> None:
+        self.errors.append(f"Syntax error at line {line}, column {column}: {msg}")
 
 
 class AFMReader(TextToModel):
@@ -36,7 +48,16 @@ class AFMReader(TextToModel):
         lexer = AFMLexer(input_stream)
         stream = CommonTokenStream(lexer)
         parser = AFMParser(stream)
+        error_listener = AFMErrorListener()
+        lexer.removeErrorListeners()
+        lexer.addErrorListener(error_listener)
+        parser.removeErrorListeners()
+        parser.addErrorListener(error_listener)
         self.parse_tree = parser.feature_model()
+        if error_listener.errors:
+            raise FlamaException(
+                "Parsing failed due to syntax errors: " + "; ".join(error_listener.errors)
+            )
 
     def transform(self) -> FeatureModel:
         self.set_parse_tree()
